@@ -32,6 +32,15 @@ THEOREMS = [
     'CC.C15_extra_keys_symbol', 'CC.C15_extra_keys_circuit',
 ]
 LEAN_MODULE_EXTRA = ['CC.Properties.C15Declarative']
+# round 5b (CC/Properties/C15Extras.lean, lemmas in CC/Proofs/DrawExtras.lean): save∘load of drawings with extra keywords
+LEAN_MODULE_EXTRA = list(globals().get('LEAN_MODULE_EXTRA', [])) + ['CC.Properties.C15Extras']
+THEOREMS += [
+    'CC.Draw.saveLoad_ext', 'CC.Draw.cycles_ext', 'CC.Draw.valKept_iff', 'CC.Draw.keysOK_iff',
+    'CC.C15_withExtras_ext', 'CC.C15_saveLoad_extras', 'CC.C15_saveLoad_extras_succeeds',
+    'CC.C15_roundtrip_extras', 'CC.C15_roundtrip_extras_verbatim',
+    'CC.C15_stable_extras', 'CC.C15_stable_extras_verbatim',
+    'CC.C15_extras_not_fixed', 'CC.C15_namesWF_of_check',
+]
 OPEN_STATEMENTS = [
     'declarative descriptions: the model function `declarative` is now characterised for every description list '
     '(C15_declarative_list: iff; C15_declarative_symbols: each constructor call equals the programmatic call on the constructor '
@@ -42,10 +51,19 @@ OPEN_STATEMENTS = [
     'Elements.Ground\'s re-mapped direction methods are outside the model',
     'C15_roundtrip / C15_stable assume the keyword layouts of C15_Canonical and unique element names. Round 5 proves that extra '
     'keywords the class does not read (placement parameters d, l, at, …) do not change the symbol or the circuit '
-    '(C15_extra_keys_symbol / C15_extra_keys_circuit, any base layout), but NOT that save∘load of a drawing with such extras '
-    'succeeds with a drawing of the same form (extras carried through userparams; a complex- or None-valued extra is stored as None '
-    'and dropped on the next cycle, so the fixed-point part of ElemStable needs a restriction on the extras\' values) — the round trip '
-    'of layouts with extra keywords stays with the correspondence and the oracle',
+    '(C15_extra_keys_symbol / C15_extra_keys_circuit, any base layout). Round 5b CLOSES the round trip of such layouts: for a '
+    'C15_Canonical drawing plus, per element, appended extras whose keys pass the decidable C15_extrasOK (not read by the class, '
+    'not one of the keys undictify_element writes: name, reverse, deg, sin, constructor value keys, combine_to_complex keys) and '
+    'whose values are ARBITRARY, saveLoad / n cycles succeed exactly when they do without the extras (same error otherwise) and the '
+    'result has the symbols of the reloaded base and the circuit of the original (C15_roundtrip_extras, C15_stable_extras, '
+    'C15_saveLoad_extras, C15_saveLoad_extras_succeeds); the reloaded keywords are an interleaving (Merge) of the reloaded base '
+    'keywords and the extras after one cycle (nextEx), not base ++ extras; extras whose values are not None / complex '
+    '(C15_valuesKept) come back verbatim (…_verbatim), and that restriction cannot be dropped there (witness examples; '
+    'C15_extras_not_fixed: FixedAfter is false for a complex-valued extra — ElemStable does not transfer, the drawing-level '
+    'statement is proved through the relation to the base drawing instead). Still open here: extras whose key collides with a '
+    'reserved key or a key the class reads (e.g. a stray `R` on a source, overwritten by the loader) are outside C15_extrasOK; '
+    'base layouts other than C15_Canonical have the transfer (C15_saveLoad_extras holds for any base over the persistable '
+    'classes) but no base theorem; that schemdraw passes unknown keywords through untouched is part of the model assumption',
 ]
 ASSUMPTIONS = [
     'json.loads(json.dumps(t)) = t on the stored tree (floats round-trip exactly through repr); yaml likewise',
